@@ -6,6 +6,8 @@ DRIVERS = [
     dict(name="calls_verif32", src="calls.cpp", defines=["CALLS_VERIF32"], ops=["calls32"]),
     dict(name="calls_wide", src="calls.cpp", defines=["CALLS_WIDE"], ops=["callsw"]),
     dict(name="calls_noop", src="calls.cpp", defines=["CALLS_NOOP"], ops=["callsn"]),
+    dict(name="calls_dylib", src="calls.cpp", defines=["CALLS_DYLIB"], ops=["callsd"], flags=["-rdynamic"],
+         prebuild=[("calls_guestlib.cpp", "libcalls0.so", ["LIB=0"]), ("calls_guestlib.cpp", "libcalls1.so", ["LIB=1"])]),
     dict(name="calls_noop_etls", src="calls.cpp", defines=["CALLS_NOOP", "RLBOX_EMBEDDER_PROVIDES_TLS_STATIC_VARIABLES"], ops=["callsne"]),
 ]
 
@@ -17,6 +19,7 @@ def gen_cases(tier, rng):
     cases += callscommon.gen("callsw", tier, rng, 3, 1500 if q else 15000, 6)
     cases += callscommon.gen("callsn", tier, rng, 3, 1500 if q else 15000, 6)
     cases += callscommon.gen("callsne", tier, rng, 3, 1500 if q else 15000, 6)
+    cases += callscommon.gen("callsd", tier, rng, 3, 800 if q else 8000, 6)
     return cases
 
 
@@ -30,5 +33,5 @@ RULE = ("register/unregister history over 3 sandbox instances and a pool of 8 ap
         "rlbox_noop_sandbox with library TLS and with embedder-provided TLS. Compared: which function ran, which sandbox reference it was given, the argument it saw, the value guest code got "
         "back, abort flag, thread record afterwards. Non-trivial: at least one application callback ran.")
 TRUSTED = ["model coq/Calls.v + coq/World.v hand-written; tied by differential correspondence of whole call trees"]
-ASSUMPTIONS = ["registrations do not change while a tree is running (histories precede the tree)", "rlbox_dylib_sandbox is not driven (its callback code is textually the no-op back end's); see DESIGN.md",
+ASSUMPTIONS = ["registrations do not change while a tree is running (histories precede the tree)", "rlbox_dylib_sandbox is driven with two real shared objects exporting the same names (built at check time)",
                "single thread per tree (C18 covers threads)"]
